@@ -51,7 +51,7 @@ def main():
     for row in rows:
         print(" | ".join(str(x) for x in row))
     # record (development aid; the table in DESIGN.md section 11 is generated from this file)
-    rp = os.path.join(VERIF, "seeded", "RESULTS.json")
+    rp = os.environ.get("SELFTEST_RESULTS") or os.path.join(VERIF, "seeded", "RESULTS.json")
     res = json.load(open(rp)) if os.path.exists(rp) else {}
     for sid, prop, status, detail in rows:
         if isinstance(prop, list):
